@@ -327,6 +327,50 @@ def section_spectrum():
             fail("spectrum", "characteristic polynomial of the truncated H_tilde differs from that of H below order N+1", layout=li, coefficients=list(bad.items())[:3])
 
 
+def section_spectrum_implicit():
+    """C04 for the implicit solvers: eigenvalues of the truncated H_tilde^AA against the exact lowest eigenvalues,
+    relative to the truncation error of the explicit computation of the same problem."""
+    global cases
+    rng = np.random.default_rng(44)
+    n, na = 10, 2
+    M = rng.normal(size=(n, n))
+    H0 = np.diag(np.concatenate([[0.0, 0.3], 2.0 + np.arange(n - na) * 0.7]))
+    Q = np.linalg.qr(rng.normal(size=(n, n)))[0]
+    H0 = Q @ H0 @ Q.T
+    H1 = (M + M.T) / 2
+    w, v = np.linalg.eigh(H0)
+    vA, vB = v[:, :na], v[:, na:]
+    variants = {
+        "explicit": dict(subspace_eigenvectors=(vA, vB)),
+        "implicit-direct": dict(subspace_eigenvectors=(vA,), direct_solver=True),
+        "implicit-KPM": dict(subspace_eigenvectors=(vA,), direct_solver=False, solver_options={"atol": 1e-6}),
+        "implicit-KPM-aux": dict(subspace_eigenvectors=(vA,), direct_solver=False, solver_options={"atol": 1e-6, "auxiliary_vectors": vB[:, :3]}),
+    }
+    errs = {}
+    for nm, kw in variants.items():
+        cases += 1
+        try:
+            with warnings.catch_warnings():
+                warnings.simplefilter("ignore")
+                Ht = block_diagonalize([sparse.csr_array(H0) if nm != "explicit" else H0, sparse.csr_array(H1) if nm != "explicit" else H1], **kw)[0]
+                for N in (1, 2, 3):
+                    for lam in (0.02, 0.01):
+                        Heff = sum(lam ** k * dense(Ht[(0, 0, k)], (na, na)) for k in range(N + 1))
+                        exact = np.linalg.eigvalsh(H0 + lam * H1)[:na]
+                        errs[(nm, N, lam)] = np.abs(np.sort(np.linalg.eigvals(Heff).real) - exact).max()
+        except Exception as e:
+            fail("spectrum_implicit", "block_diagonalize raised", variant=nm, error=repr(e)[:300])
+    for (nm, N, lam), e in errs.items():
+        ref = errs.get(("explicit", N, lam))
+        if nm != "explicit" and ref is not None and e > 10 * ref + 2e-5:
+            fail("spectrum_implicit", "spectrum of the truncated H_tilde^AA deviates from the exact one far more than in the explicit computation",
+                 variant=nm, order=N, lam=lam, err=float(e), explicit_err=float(ref))
+    for N in (1, 2, 3):
+        e1, e2 = errs.get(("explicit", N, 0.02)), errs.get(("explicit", N, 0.01))
+        if e1 is not None and e2 is not None and e2 > 1e-13 and e1 / e2 < 2 ** (N + 1) / 3:
+            fail("spectrum_implicit", "explicit truncation error does not scale like lambda^(N+1)", order=N, ratio=float(e1 / e2))
+
+
 def section_solvers():
     """C16: each built-in solver returns a solution of its own equation."""
     global cases
